@@ -68,6 +68,27 @@ def containsUnary [BEq α] [Min α] [OfNat α 0] (T : Tables α) (mask : Array B
   (sweep T (hooks T mask) { children := Array.replicate numNodes 0, check := [], found := false }).map
     (·.found)
 
+/-- `tskit.NODE_IS_SAMPLE` is bit 0 of the node's `flags` word; every other bit (msprime's
+`NODE_IS_RE_EVENT`/`NODE_IS_CA_EVENT`, tsinfer's path-compression flags, `NODE_SPLIT_BY_PREPROCESS`, user
+bits) is irrelevant for being a sample. -/
+def sampleBit (flags : Nat) : Bool := flags % 2 == 1
+
+/-- The mask `util.contains_unary_nodes(ts, skip_samples)` builds:
+
+    nodes_mask = np.full(ts.num_nodes, False)
+    if skip_samples:
+        nodes_mask[list(ts.samples())] = True
+
+(`ts.samples()` = the nodes whose flags have bit 0 set). -/
+def wrapperMask (flags : Array Nat) (skipSamples : Bool) : Array Bool :=
+  flags.map fun f => skipSamples && sampleBit f
+
+/-- `util.contains_unary_nodes(ts, skip_samples)`: the flags column decides the mask, `num_nodes` is
+its length. -/
+def containsUnaryNodes [BEq α] [Min α] [OfNat α 0] (T : Tables α) (flags : Array Nat)
+    (skipSamples : Bool) : Option Bool :=
+  containsUnary T (wrapperMask flags skipSamples) flags.size
+
 end Kernel
 
 section Spec
